@@ -31,17 +31,25 @@ pub fn run(ctx: &Ctx) -> i32 {
         let cfg = if cc.idx % 2 == 0 { Cfg::Wa } else { Cfg::Exp };
         with_cfg!(cfg, TC, { block_on(e2e_case::<TC>(cc, rng, l)) });
     });
+    // the tree is made CONSISTENT with an altered claimed node label, so only the VRF binding can reject
+    let n_claim = ctx.tier.pick(320, 3200);
+    par_cases(ctx, &mon, "claim", n_claim, |cc, rng, l| {
+        let cfg = if cc.idx % 2 == 0 { Cfg::Wa } else { Cfg::Exp };
+        with_cfg!(cfg, TC, { block_on(claim_case::<TC>(cc, rng, l)) });
+    });
     finish(
         ctx,
         &mon,
         Spec::new(
             "exploration",
-            "keys: the hard-coded key + random keys; labels: empty, 1 byte, 32 bytes, 4 KiB, prefix-related pairs, pairs differing in the last bit; versions {1,2,255,256,2^32-1,2^32,2^63,u64::MAX,random}; both freshness values; both configurations. Self-consistency of get_node_label / get_node_labels / get_node_label_from_vrf_proof(get_label_proof) and determinism; verification (public key bytes -> VRFPublicKey::try_from -> verify -> node label from proof) succeeds for the honest tuple and fails after altering key, label, freshness, version or the claimed node label; every single-bit flip of the 80 proof bytes, non-canonical scalars, random strings and wrong lengths either fail or yield the SAME node label; different secret keys give different node labels and commitments; end to end through lookup_verify/key_history_verify with right and wrong public keys. distinct = (alteration class, field, cfg); non-trivial = negative case",
+            "keys: the hard-coded key + random keys; labels: empty, 1 byte, 32 bytes, 4 KiB, prefix-related pairs, pairs differing in the last bit; versions {1,2,255,256,2^32-1,2^32,2^63,u64::MAX,random}; both freshness values; both configurations. Self-consistency of get_node_label / get_node_labels / get_node_label_from_vrf_proof(get_label_proof) and determinism; verification (public key bytes -> VRFPublicKey::try_from -> verify -> node label from proof) succeeds for the honest tuple and fails after altering key, label, freshness, version or the claimed node label; every single-bit flip of the 80 proof bytes, non-canonical scalars, random strings and wrong lengths either fail or yield the SAME node label; different secret keys give different node labels and commitments; end to end through lookup_verify/key_history_verify with right and wrong public keys; claim-consistent trees: a dishonest server places the leaf of (label, version 1) at an ALTERED node label (single bit flipped at position 0/255/random, bit length 255/200/random with the VRF bytes kept or canonically truncated) with the matching commitment, and presents lookup and history proofs whose tree part is genuine for that altered label - only the comparison of the VRF output with the claimed node label (all 256 bits and the length) can reject; the unaltered control must be accepted. distinct = (alteration class, field, cfg); non-trivial = negative case",
         )
         .need("honest_tuples_verified", ctx.tier.pick(2_000, 20_000))
         .need("altered_inputs_rejected", ctx.tier.pick(10_000, 100_000))
         .need("proof_bit_flips", ctx.tier.pick(30_000, 250_000))
-        .need("e2e_wrong_key_rejected", ctx.tier.pick(20, 150)),
+        .need("e2e_wrong_key_rejected", ctx.tier.pick(20, 150))
+        .need("claim_consistent_tree_controls_accepted", ctx.tier.pick(8, 80))
+        .need("claim_consistent_tree_alterations_rejected", ctx.tier.pick(100, 1000)),
     )
 }
 
@@ -348,5 +356,116 @@ async fn e2e_case<TC: Configuration>(cc: &CaseCtx, rng: &mut Rng, l: &mut Local)
     l.case(format!("e2e/{}", cfg_of::<TC>().name()).as_bytes(), true);
     if cc.idx < 1 {
         l.sample(json!({"case": cc.id, "family": "e2e", "label": hx(&label)}));
+    }
+}
+
+/// The dishonest server stores the leaf of (victim, fresh, 1) under an altered node label L* (with the
+/// commitment computed for L*), so the membership proof of L* is genuine; the lookup / history proof
+/// claims L* as the node label of the VRF proof of (victim, fresh, 1).  Must be rejected unless L* is
+/// the true label.
+async fn claim_case<TC: Configuration>(cc: &CaseCtx, rng: &mut Rng, l: &mut Local) {
+    use crate::dishonest::{self, Corruption};
+    use crate::prover::{flip_bit, Forge};
+    use crate::xdb::XDb;
+    let key = rng.bytes(32);
+    let vrf = KeyVrf::from_bytes(&key);
+    let db = XDb::new();
+    let mgr = CacheOpt::None.manager(db.clone());
+    let Ok(dir) = Dir::<TC>::new(mgr.clone(), vrf.clone(), AzksParallelismConfig::disabled()).await else {
+        l.inconclusive("Directory::new failed");
+        return;
+    };
+    let pk = dir.get_public_key().await.unwrap().as_bytes().to_vec();
+    let filler: crate::model::Batch = (0..rng.range(1, 12)).map(|i| (format!("filler-{i}").into_bytes(), b"x".to_vec())).collect();
+    if dishonest::publish::<TC, _>(&mgr, &vrf, &filler, &Corruption::default()).await.is_err() {
+        l.inconclusive("filler publish failed");
+        return;
+    }
+    let n_l = rng.range(0, 24) as usize;
+    let victim = { let mut v = rng.bytes(n_l); v.extend_from_slice(b"-victim"); v };
+    let value = b"claimed-value".to_vec();
+    let f = vrf.get_node_label::<TC>(&AkdLabel(victim.clone()), VersionFreshness::Fresh, 1).await.unwrap();
+    let kind = (cc.idx / 2) % 8;
+    let (class, alt): (&str, NodeLabel) = match kind {
+        0 => ("control-unaltered", f),
+        1 => ("bit-255-flipped", flip_bit(&f, 255)),
+        2 => ("bit-0-flipped", flip_bit(&f, 0)),
+        3 => ("random-bit-flipped", flip_bit(&f, rng.below(256) as u32)),
+        4 => ("length-255-bytes-kept", NodeLabel { label_val: f.label_val, label_len: 255 }),
+        5 => ("length-255-canonical", f.get_prefix(255)),
+        6 => ("length-200-bytes-kept", NodeLabel { label_val: f.label_val, label_len: 200 }),
+        _ => {
+            let k = rng.range(40, 254) as u32;
+            ("length-random-canonical", f.get_prefix(k))
+        }
+    };
+    let ck = TC::hash(&vrf.0);
+    let elem = AzksElement { label: alt, value: TC::compute_fresh_azks_value(&ck, &alt, 1, &AkdValue(value.clone())) };
+    let c = Corruption { raw: vec![elem], omit_fresh_for: vec![victim.clone()], ..Default::default() };
+    let eh = match dishonest::publish::<TC, _>(&mgr, &vrf, &vec![(victim.clone(), value.clone())], &c).await {
+        Ok(e) => e,
+        Err(e) => {
+            // the tree refused the altered label (e.g. mixed lengths colliding): nothing to present
+            l.count("claim_consistent_tree_insert_refused", 1);
+            let _ = e;
+            return;
+        }
+    };
+    let forge = Forge::<TC>::new(&db, eh.0, vrf.clone()).await;
+    let Some(mem) = forge.view.membership(&alt) else {
+        l.count("claim_consistent_tree_no_membership", 1);
+        return;
+    };
+    l.eval(1);
+    let detail = json!({"cfg": cfg_of::<TC>().name(), "key": hex::encode(&key), "label": hx(&victim), "class": class,
+        "true_node_label": {"val": hex::encode(f.label_val), "len": f.label_len}, "claimed_node_label": {"val": hex::encode(alt.label_val), "len": alt.label_len}, "epoch": eh.0});
+    // ---- lookup
+    let Some(mut p) = forge.lookup_proof(&victim, 1, &value, eh.0, None).await else { return };
+    p.existence_proof = mem.clone();
+    p.marker_proof = mem.clone();
+    p.commitment_nonce = forge.nonce(&alt, 1, &value);
+    let r = guarded(l, "C18:", "lookup_verify (claim-consistent tree)", |_| akd::client::lookup_verify::<TC>(&pk, eh.1, eh.0, AkdLabel(victim.clone()), p));
+    // ---- history (one version)
+    let hp = forge.history_proof(&victim, &[(1, value.clone(), eh.0)], eh.0, None).await;
+    let rh = match hp {
+        Some(mut h) => {
+            h.update_proofs[0].existence_proof = mem.clone();
+            h.update_proofs[0].commitment_nonce = forge.nonce(&alt, 1, &value);
+            // version 1 is its own past marker
+            for m in h.existence_of_past_marker_proofs.iter_mut() {
+                *m = mem.clone();
+            }
+            guarded(l, "C18:", "key_history_verify (claim-consistent tree)", |_| {
+                akd::client::key_history_verify::<TC>(&pk, eh.1, eh.0, AkdLabel(victim.clone()), h, HistoryVerificationParams::default())
+            })
+        }
+        None => None,
+    };
+    if kind == 0 {
+        match (&r, &rh) {
+            (Some(Ok(vr)), Some(Ok(hs))) if vr.version == 1 && vr.value.0 == value && hs.len() == 1 => l.count("claim_consistent_tree_controls_accepted", 1),
+            _ => l.violation("C18:claim-control-rejected", format!("the unaltered control of the claim-consistent-tree family is not accepted: lookup {:?}, history {:?}", r.as_ref().map(|x| x.is_ok()), rh.as_ref().map(|x| x.is_ok())), detail),
+        }
+    } else {
+        let mut bad = vec![];
+        if let Some(Ok(_)) = r {
+            bad.push("lookup_verify");
+        }
+        if let Some(Ok(_)) = rh {
+            bad.push("key_history_verify");
+        }
+        if bad.is_empty() {
+            l.count("claim_consistent_tree_alterations_rejected", 1);
+        } else {
+            l.violation(
+                format!("C18:claimed-node-label-altered-accepted/{class}"),
+                format!("{} accepted a proof whose claimed node label ({class}) is not the VRF output of (label, fresh, 1): the tree contains the altered label, only the VRF binding could have rejected it", bad.join(" and ")),
+                detail,
+            );
+        }
+    }
+    l.case(format!("claim/{class}/{}", cfg_of::<TC>().name()).as_bytes(), kind != 0);
+    if cc.idx < 2 {
+        l.sample(json!({"case": cc.id, "family": "claim-consistent tree", "class": class, "label": hx(&victim)}));
     }
 }
